@@ -17,6 +17,13 @@ A write that raises satisfies the contract ("or else the write raises"); a read 
 that differs, violates it.
 
 The oracle is plain pandas/numpy on the input frame; no fastparquet helper takes part in it.
+
+Additional class (feature `read`): categorical columns whose CATEGORIES are booleans (pd.Categorical([True, False,
+..]); dtypes cat[bool], cat[bool,unsorted] = categories [True, False], cat[bool,ordered], cat[bool,one] = the single
+category True) - the dictionary page is of physical type BOOLEAN - over all row counts x null patterns x option
+tuples (v1 / v2 pages, 1..3 pages, codecs, has_nulls, ...), read back twice: read='default' (as categorical, the
+contract above) and read='categories=[]' (to_pandas(categories=[]): the column de-categorised - every cell must be
+the boolean label of the written cell or null where the written cell is null; dtype bool / boolean / object).
 """
 import os
 import shutil
@@ -40,7 +47,9 @@ RULE = ("single-column frames over {n_dtypes} dtypes of the quantifier x row cou
         "has_nulls x pages(1,2,3 real pages via MAX_PAGE_SIZE) x DATAPAGE_VERSION x stats x times x "
         "object_encoding x file_scheme x write_index so that every dtype meets every option tuple and every "
         "(dtype,rows,nulls) shape is used; plus multi-column mixed frames x every option tuple and frames with "
-        "non-range/named/str/datetime/multi/offset-range indexes x write_index values. BOUND: rows <= 8193, "
+        "non-range/named/str/datetime/multi/offset-range indexes x write_index values; plus categoricals whose CATEGORIES "
+        "are booleans (cat[bool] / categories [True, False] / ordered / single category) x every option tuple and every "
+        "(rows, nulls) shape x read {{default, categories=[]}} (feature `read`). BOUND: rows <= 8193, "
         "<= 8 columns, the listed dtypes/values only. A case is distinct by (dtype, rows, nulls, index, option "
         "tuple, real page count); non-trivial when rows > 0 and the write did not raise.")
 
@@ -218,6 +227,48 @@ def index_mismatch(df, out, write_index):
     return None
 
 
+def decat_mismatch(df, out):
+    """Clause 1 for a read with categories=[]: categorical input columns come back as their VALUES (label of every
+    cell, null where the cell is null); other columns as in cells_mismatch."""
+    if [str(c) for c in out.columns] != [str(c) for c in df.columns]:
+        return f"column names/order {list(out.columns)!r} instead of {list(df.columns)!r}"
+    if len(out) != len(df):
+        return f"{len(out)} rows instead of {len(df)}"
+    for c in df.columns:
+        if not isinstance(df[c].dtype, pd.CategoricalDtype):
+            r = same_values(df[c], out[c], f"column {c!r}")
+            if r:
+                return r
+            continue
+        if isinstance(out[c].dtype, pd.CategoricalDtype):
+            return f"column {c!r}: read with categories=[] but came back categorical"
+        want = list(df[c].astype(object))
+        try:
+            got = list(out[c].astype(object))
+        except Exception as e:
+            return f"column {c!r}: values cannot be inspected: {type(e).__name__}: {e}"
+        for i, (x, y) in enumerate(zip(want, got)):
+            nx, ny = _isna_obj(x), _isna_obj(y)
+            if nx != ny:
+                return f"column {c!r} (categories=[]): missingness differs at row {i}: {y!r} instead of {x!r}"
+            if not nx and not (type(x) is type(y) or isinstance(y, (bool, np.bool_)) == isinstance(x, (bool, np.bool_))) or \
+                    (not nx and not (y == x)):
+                return f"column {c!r} (categories=[]): value differs at row {i}: {y!r} instead of {x!r}"
+    return None
+
+
+def read_back(fp, path, features):
+    """the read of the case: default, or de-categorised"""
+    pf = fp.ParquetFile(path)
+    return pf, (lambda: pf.to_pandas(categories=[])) if features.get("read") == "categories=[]" else pf.to_pandas
+
+
+def case_mismatch(df, out, write_index, features):
+    if features.get("read") == "categories=[]":
+        return decat_mismatch(df, out), index_mismatch(df, out, write_index)
+    return roundtrip_mismatch(df, out, write_index)
+
+
 def roundtrip_mismatch(df, out, write_index):
     """(cells clause, index clause): each None when `out` equals `df` under the documented canonical
     forms, else what differs."""
@@ -225,22 +276,22 @@ def roundtrip_mismatch(df, out, write_index):
 
 
 # ---- the contract-wrapped real function ---------------------------------------------------------------
-def checked_write_factory(fp, verdict):
+def checked_write_factory(fp, verdict, features=None):
     """deal.ensure on a wrapper of the real fastparquet.write (looked up at call time).  The
     post-condition evaluates both clauses and leaves the per-clause verdicts in `verdict`."""
 
     def post(_):
         verdict["evaluations"] = verdict.get("evaluations", 0) + 1
         try:
-            pf = fp.ParquetFile(_.path)
+            pf, read = read_back(fp, _.path, features or {})
             verdict["pages"] = D.data_pages(pf)
             verdict["chunk_pages"] = D.chunk_pages(pf)
             D.poison_heap(len(_.df))
-            out = pf.to_pandas()
+            out = read()
         except Exception as e:       # a read that raises violates the contract
             verdict["cells"] = f"read raised {type(e).__name__}: {str(e)[:200]}"
             return verdict["cells"]
-        verdict["cells"], verdict["index"] = roundtrip_mismatch(_.df, out, _.options.get("write_index"))
+        verdict["cells"], verdict["index"] = case_mismatch(_.df, out, _.options.get("write_index"), features or {})
         bad = [v for v in (verdict["cells"], verdict["index"]) if v]
         return True if not bad else "; ".join(bad)
 
@@ -263,7 +314,7 @@ def run_case(fp, features, scratch):
         with warnings.catch_warnings():
             warnings.simplefilter("ignore")
             with D.writer_globals(fp, **globs):
-                checked_write_factory(fp, verdict)(path, df, kwargs)
+                checked_write_factory(fp, verdict, features)(path, df, kwargs)
     except deal.PostContractError as e:
         res.update(status="fail", what=str(e.message if getattr(e, "message", None) else e)[:400])
     except Exception as e:
@@ -314,6 +365,18 @@ def enumerate_cases(tier, seed=0):
         for k, s in enumerate(shapes):
             for r in range(reps):
                 add(s, opts[(k * reps + r + 3 * di) % len(opts)])
+    # categoricals whose categories are booleans: every option tuple, every shape, both read modes
+    rows = D.ROWS if tier == "thorough" else D.SMALL_ROWS + [8193]
+    for di, dtype in enumerate(D.BOOL_CATEGORICALS):
+        shapes = [{"dtype": dtype, "rows": n, "nulls": p, "index": "range"} for n, p in D._single_shapes(dtype, rows)]
+        roomy = [s for s in shapes if s["rows"] >= 7]
+        for k, o in enumerate(opts):
+            pool = roomy if (o["pages"] > 1 or o["rgo"] in ("int", "list")) else shapes
+            for r, read in enumerate(("default", "categories=[]")):
+                cases.append({**pool[(k * 7 + di + 3 * r) % len(pool)], **o, "read": read})
+        for k, s in enumerate(shapes):
+            for r, read in enumerate(("default", "categories=[]")):
+                cases.append({**s, **opts[(2 * k + r + 3 * di) % len(opts)], "read": read})
     for s in specs:
         if s["dtype"] in D.MIXED and s["index"] == "range":
             for o in opts:
@@ -345,7 +408,7 @@ import os, sys, shutil, tempfile, warnings
 sys.path.insert(0, "/verif")
 import fastparquet
 from runtime import datasets as D
-from runtime.c01_roundtrip import roundtrip_mismatch
+from runtime.c01_roundtrip import case_mismatch, read_back
 features = {features!r}
 df = D.frame_from_features(features)
 kwargs, globs = D.bind_options(features, df)
@@ -363,8 +426,8 @@ try:
     if wrote:
         D.poison_heap(len(df))
         try:
-            out = fastparquet.ParquetFile(os.path.join(d, "t.parq")).to_pandas()
-            cells, index = roundtrip_mismatch(df, out, kwargs.get("write_index"))
+            out = read_back(fastparquet, os.path.join(d, "t.parq"), features)[1]()
+            cells, index = case_mismatch(df, out, kwargs.get("write_index"), features)
         except Exception as e:
             cells = index = "read raised %s: %s" % (type(e).__name__, e)
         what = {{"cells": cells, "index": index}}[{clause!r}]
